@@ -97,7 +97,7 @@ def run(pid, tier):
                 "inputs of real (country, preset) pairs; each pair is one event validated by Mono.tla; distinct = distinct pairs")
     insts = optimum.gen_instances(tier, C.seed())[: (24 if tier == "quick" else 200)]
     jobs = [dict(kind="small", inst=i) for i in insts]
-    spec_opt = spec_laws(out, insts[: (12 if tier == "quick" else 60)], 60 if tier == "quick" else 1800)
+    spec_opt = spec_laws(out, insts[: (12 if tier == "quick" else 48)], 60 if tier == "quick" else 420)
     P = presets.all_presets()
     real = [("ARG", "net_baseline"), ("DJI", "net_nuclear_winter"), ("USA", "ms_worst"), ("EST", "net_nuclear_resilient"), ("IND", "ms_example_res"),
             ("WOR", "net_nuclear_winter"), ("WOR", "net_nuclear_resilient"), ("NZL", "ms_simple_ration"), ("JPN", "net_nuclear_resilient_more_area")]
